@@ -168,4 +168,128 @@ def rule_guard(ctx) -> RuleResult:
     return res
 
 
-RULES = [rule_guard]
+def rule_scope(ctx) -> RuleResult:
+    res = RuleResult(
+        "C19.SCOPE",
+        "C19",
+        "inside H5Reader, a loop over several items of the file that sits in a try/except KeyError (handler outside the "
+        "loop) performs no lookup that can itself be missing — only `handle[k]` with k iterated from that same handle — "
+        "unless the lookup has its own guard inside the loop: otherwise one missing optional item silently drops all the "
+        "items after it",
+        floor=3,
+    )
+    p = ctx.p
+    R = p.cls("H5Reader")
+    for name, fn in R.methods.items():
+        tainted = tainted_names(fn)
+        if not tainted:
+            continue
+        for t in ast.walk(fn.node):
+            if not isinstance(t, ast.Try):
+                continue
+            catches = False
+            for h in t.handlers:
+                names = [] if h.type is None else (h.type.elts if isinstance(h.type, ast.Tuple) else [h.type])
+                if h.type is None or any(isinstance(x, ast.Name) and x.id in CATCHES for x in names):
+                    catches = True
+            if not catches:
+                continue
+            loops = [lp for s in t.body for lp in ast.walk(s) if isinstance(lp, (ast.For, ast.ListComp, ast.DictComp, ast.GeneratorExp))]
+            for lp in loops:
+                if isinstance(lp, ast.For):
+                    body_nodes = [x for s in lp.body for x in ast.walk(s)]
+                    iters = [(lp.target, lp.iter)]
+                else:
+                    body_nodes = [x for part in ([lp.elt] if hasattr(lp, "elt") else [lp.key, lp.value]) for x in ast.walk(part)]
+                    iters = [(gen.target, gen.iter) for gen in lp.generators]
+                own = set()  # (base text, key name): keys drawn from the handle itself
+                for tg, it in iters:
+                    base = it.func.value if isinstance(it, ast.Call) and isinstance(it.func, ast.Attribute) and it.func.attr in ("keys", "items") else it
+                    names = [x.id for x in ast.walk(tg) if isinstance(x, ast.Name)]
+                    if names:
+                        own.add((unparse(base), names[0]))
+                inner_tries = [x for x in body_nodes if isinstance(x, ast.Try)]
+                inner_guarded = {id(y) for it in inner_tries for s in it.body for y in ast.walk(s)}
+                in_tests = set()
+                for x in body_nodes:
+                    if isinstance(x, ast.If):
+                        for f in facts_of(x.test, True):
+                            if len(f) == 2:
+                                in_tests.add(f)
+                bad = []
+                n_sub = 0
+                for x in body_nodes:
+                    if not (isinstance(x, ast.Subscript) and isinstance(x.ctx, ast.Load) and _handle_expr(x.value, tainted)):
+                        continue
+                    if isinstance(x.slice, ast.Slice) or (isinstance(x.slice, ast.Tuple) and not x.slice.elts):
+                        continue
+                    n_sub += 1
+                    key, base = unparse(x.slice), unparse(x.value)
+                    if (base, key) in own or id(x) in inner_guarded or (key, base) in in_tests:
+                        continue
+                    bad.append(x)
+                res.inst(f"H5Reader.{name}:{lp.lineno} loop inside try/except: {n_sub} lookups, all on the handle's own keys or guarded per item", nontrivial=True, ok=not bad)
+                for x in bad[:2]:
+                    res.find("H5Reader", name, f"per-item lookup {unparse(x)[:40]} inside a loop guarded only from outside", f"{fn.module.relpath}:{x.lineno}",
+                             f"when `{unparse(x)[:40]}` is missing for one item the KeyError leaves the whole loop: every item after it is silently dropped "
+                             "although nothing describing those items is missing")
+    return res
+
+
+PERSISTING = {"save_entity", "save_entity_type", "update_attribute", "finalize", "add_or_update_property_group", "remove_entity", "remove_children"}
+
+
+def rule_load(ctx) -> RuleResult:
+    res = RuleResult(
+        "C19.LOAD",
+        "C19",
+        "the load path (Workspace.open and every Workspace method it reaches through self.<method>) makes no "
+        "persisting call: no save_entity / update_attribute / H5Writer call, and entities it constructs are created "
+        "with save_on_creation=False — opening a file (also one that lacks the Root link) needs no write access",
+        floor=5,
+    )
+    p = ctx.p
+    W = p.cls("Workspace")
+    start = W.methods.get("open")
+    if start is None:
+        raise AnalysisError("anchor Workspace.open not found")
+    seen, work = {}, [start]
+    CONSTRUCTORS = {"create_entity", "create_data", "create_object_or_group", "create_from_concatenation"}
+    while work:
+        fn = work.pop()
+        if fn.name in seen:
+            continue
+        seen[fn.name] = fn
+        sn = fn.self_name or "self"
+        for c in ast.walk(fn.node):
+            if isinstance(c, ast.Call) and isinstance(c.func, ast.Attribute) and isinstance(c.func.value, ast.Name) and c.func.value.id == sn:
+                m = W.lookup(c.func.attr)
+                if m and m[1] == "method" and c.func.attr not in PERSISTING and c.func.attr not in CONSTRUCTORS and c.func.attr not in ("_io_call", "close"):
+                    work.append(m[2])
+    for nm, fn in sorted(seen.items()):
+        sn = fn.self_name or "self"
+        bad = []
+        for c in ast.walk(fn.node):
+            if not isinstance(c, ast.Call):
+                continue
+            f = c.func
+            if isinstance(f, ast.Attribute) and isinstance(f.value, ast.Name) and f.value.id == sn:
+                if f.attr in PERSISTING:
+                    bad.append((c, f"self.{f.attr}(...)"))
+                elif f.attr == "_io_call" and c.args and unparse(c.args[0]).startswith("H5Writer"):
+                    bad.append((c, f"self._io_call({unparse(c.args[0])}, ...)"))
+                elif f.attr in CONSTRUCTORS and f.attr == "create_entity":
+                    kw = {k.arg: unparse(k.value) for k in c.keywords}
+                    if kw.get("save_on_creation") != "False":
+                        bad.append((c, "self.create_entity(...) without save_on_creation=False"))
+            elif unparse(f).startswith("H5Writer."):
+                bad.append((c, unparse(f)))
+        res.inst(f"Workspace.{nm}: on the load path, no persisting call", nontrivial=True, ok=not bad)
+        for c, what in bad:
+            res.find("Workspace", nm, f"persisting call on the load path: {what}", f"{fn.module.relpath}:{c.lineno}",
+                     f"{what} runs while a file is being opened: opening in read-only mode (or a read-only fallback) fails or the file is "
+                     "modified by merely opening it")
+    return res
+
+
+RULES = [rule_guard, rule_scope, rule_load]
